@@ -327,6 +327,24 @@ def _sp_file_iteration_ok(eng, args, kw, n):
 SPEC_BUILTINS["FileIterationOK"] = _sp_file_iteration_ok
 
 
+def _sp_constructed_from_own_args(eng, args, kw, n):
+    """ConstructedFromOwnArgs(): evaluated where the per-file loop is entered - the trace up to here holds exactly one
+    construction of FileAnonymizer, and each of its options is bound to anonymize_files' own parameter of the same
+    name (no option dropped, swapped or replaced by a default)."""
+    cons = [e for k, e in eng.st.calls if k.endswith("FileAnonymizer.__init__")]
+    if len(cons) != 1:
+        return Conc(False)
+    e = cons[0]
+    for p_ in ("anon_pwd", "anon_ip", "salt", "sensitive_words", "undo_ip_anon", "as_numbers", "reserved_words",
+               "preserve_prefixes", "preserve_networks", "preserve_suffix_v4", "preserve_suffix_v6"):
+        if p_ not in e or p_ not in eng.st.vars or not _same(eng, e[p_], eng.st.vars[p_]):
+            return Conc(False)
+    return Conc(True)
+
+
+SPEC_BUILTINS["ConstructedFromOwnArgs"] = _sp_constructed_from_own_args
+
+
 def _sp_opens_only(eng, args, kw, n):
     """OpensOnly('dumpfile'): the trace since the per-file loop opens nothing but the named path, for writing, once"""
     opens = [e for k, e in eng.st.calls if k == "open"]
@@ -373,6 +391,7 @@ R.contract(M + "anonymize_files@impl",
                                   heap_modifies=["file_anonymizer.pwd_lookup", "file_anonymizer.anonymizer4.cache",
                                                  "file_anonymizer.anonymizer6.cache",
                                                  "file_anonymizer.anonymizer_sensitive_word.sens_word_replacements"],
+                                  entry_ensures=["ConstructedFromOwnArgs()"],
                                   invariant=FA_OK + ["all(PairOK(p, input_path, output_path) for p in file_list)",
                                                      "FileIterationOK('in_path', 'out_path')"])})
 
